@@ -38,6 +38,8 @@ def cases(tier, seed):
             g["origin"] = [rng.choice([1.0e5, -3.0e5, 2.5e6]) for _ in range(3)]
         if i % 4 == 2:      # header flavour with an integer line before the time (also with whole-number times)
             g["header_int"] = [1, 0, 7][(i // 4) % 3]
+        if i % 4 == 1:      # box extrema that are negative numbers with three-digit exponents (gradp, reaction rates)
+            g["extreme_vals"] = True
         if i % 7 == 4:      # header tail without the coordinate-system lines
             g["no_coord"] = True
         c = {"gen": g, "sel_seed": seed * 79 + i}
